@@ -33,6 +33,14 @@ fn shifted(c: MCell, delta: i64) -> Option<MCell> {
 pub fn check_pair(run: &mut Run, a: MCell, b: MCell, depth: i32) {
     run.evaluations += 1;
     let (ia, ib) = (encode(a), encode(b));
+    // history: for a third of the pairs a base cell is handled first - the one whose 6-bit field equals that of `a` when
+    // there is one (the same leading bits mean 'face' at resolution 0 and '5 * face + quintant' below)
+    if (ia >> 9) % 3 == 0 {
+        let top6 = (ia >> 58) as u8;
+        let base = encode(MCell::new(0, if top6 < 12 { top6 } else { top6 % 12 }, 0, 0));
+        let _ = children(base, None);
+        run.count("pairs.preceded_by_a_base_cell_call");
+    }
     if ia == ib {
         return;
     }
